@@ -48,12 +48,14 @@ def check(ck):
     repo = ck.repo
     with ck.rule("R1"):
         _grammar_tables(ck, repo)
+        string_token_rows(ck, repo)
     with ck.rule("R2"):
         _ast_to_schema(ck, repo)
     with ck.rule("R3"):
         _introspection_tables(ck, repo)
     with ck.rule("R4"):
         _deprecation_and_hiding(ck, repo)
+        schema_marked_non_introspectable(ck, repo)
     with ck.rule("R5"):
         _sdl_assembly(ck, repo)
     with ck.rule("R6"):
@@ -702,3 +704,58 @@ def _extension_merge_terms(ck, repo, b, cls, parts):
             all(absint.norm(other.attrs[k]) == absint.norm(old[k]) for k in old) and set(extended.attrs) - {"_strict"} == set(old)
         ck.ob(f"{cls}.bake merges {sorted(parts)} into the extended type" + (" (an empty extension changes nothing)" if empty else ""), ok, b, b.node,
               construct=f"extension:{cls}:merges" + (":empty" if empty else ""), detail=why or f"extended type afterwards: {got}")
+
+
+def string_token_rows(ck, repo):
+    """SDL string literals (descriptions, default values, directive arguments): an ordinary string has its escape sequences
+    decoded, a block string is taken literally (spec 2.9.4: no escape sequence in a block string but `\\\"\"\"`) - decided on the
+    paths of TokenTransformer.string_value, whatever the statements look like."""
+    from ..pathtab import outcome_rows, truth
+    m = repo.func("tartiflette/language/parsers/lark/transformers/token_transformer.py", "TokenTransformer.string_value")
+    rows = [r for r in outcome_rows(FuncView(m)) if r["exit"] == "return_exit" and r["ret"] is not None]
+    if not rows:
+        raise AnalysisError("TokenTransformer.string_value: no returning path")
+    seen = set()
+    for r in rows:
+        toks = [c for c in ast.walk(r["ret"]) if isinstance(c, ast.Call) and callee_last(c) == "Token"]
+        val = unparse(toks[0].args[1]) if toks and len(toks[0].args) > 1 else unparse(r["ret"])
+        block = None
+        for t, o in r["conds"]:
+            tt = t.replace(" ", "").replace('"', "'")
+            if "=='LONG_STRING'" in tt:
+                block = o == "T"
+            elif "!='LONG_STRING'" in tt:
+                block = o == "F"
+        decoded = "_ESCAPED_CHARACTER_REGEX.sub(" in val or "_ESCAPED_UNICODE_REGEX.sub(" in val
+        if block is None:
+            ck.ob("string_value: every path knows whether the token is a block string", False, m, r["last"] or m.node, construct="string-token:kind", detail=str(r["conds"]))
+            continue
+        seen.add(block)
+        if block:
+            ck.ob("string_value: a block string is taken literally (backslashes are ordinary characters: `\"\"\"C:\\new\"\"\"` holds a backslash and an n)", not decoded, m, r["last"] or m.node,
+                  construct="string-token:block-literal", detail=val[:200])
+        else:
+            ck.ob("string_value: an ordinary string has its escaped characters and \\\\uXXXX sequences decoded", "_ESCAPED_CHARACTER_REGEX.sub(" in val and "_ESCAPED_UNICODE_REGEX.sub(" in val, m,
+                  r["last"] or m.node, construct="string-token:decoded", detail=val[:200])
+    ck.ob("string_value: has a block-string path and an ordinary-string path", seen == {True, False}, m, m.node, construct="string-token:paths", detail=str(seen))
+
+
+def schema_marked_non_introspectable(ck, repo):
+    """`schema @nonIntrospectable` refuses introspection: the schema-level hook turns the schema's flag off before anything of
+    the request runs, and never turns it back on - the flag is read by the root resolvers of *every* request on that engine, so
+    a request that restores it (after its own await) re-opens introspection for the requests still in flight."""
+    f = repo.func("tartiflette/directive/builtins/non_introspectable.py", "NonIntrospectableDirective.on_schema_execution")
+    fv = FuncView(f)
+    stores = [n for n in ast.walk(f.node) if isinstance(n, (ast.Assign, ast.AugAssign, ast.AnnAssign)) and
+              any(isinstance(t, ast.Attribute) and t.attr == "is_introspectable" for t in (n.targets if isinstance(n, ast.Assign) else [n.target]))]
+    sets = [n for n in ast.walk(f.node) if isinstance(n, ast.Call) and callee_last(n) == "setattr" and len(n.args) == 3 and unparse(n.args[1]).strip("'\"") == "is_introspectable"]
+    nxt = [c for c in fv.calls() if isinstance(c.func, ast.Name) and c.func.id in f.positional_params and fv.is_awaited(c)]   # the rest of the request
+    off = [n for n in stores if isinstance(n, ast.Assign) and isinstance(n.value, ast.Constant) and n.value.value is False]
+    ok = len(nxt) == 1 and len(off) >= 1 and any(fv.dominated_by(nxt[0], n) and not fv.conditions(n) for n in off)
+    ck.ob("@nonIntrospectable on the schema: the flag is turned off, unconditionally, before the request proceeds", ok, f, off[0] if off else f.node, construct="hidden:schema:off")
+    other = [n for n in stores if n not in off] + sets
+    ck.ob("@nonIntrospectable on the schema: the flag is never turned back on (nor restored) by a request", not other, f, other[0] if other else f.node, construct="hidden:schema:never-on",
+          detail="the flag belongs to the engine, not to the request: restoring it after the await re-enables introspection for concurrent requests")
+    wr = [fn.short for fn in repo.all_funcs() if fn is not f and not fn.module.relpath.endswith("schema/schema.py") for n in ast.walk(fn.node)
+          if isinstance(n, ast.Attribute) and n.attr == "is_introspectable" and isinstance(n.ctx, ast.Store)]
+    ck.ob("nothing else in the package writes the schema's introspection flag", not wr, where="tartiflette/", construct="hidden:schema:writers", detail=str(wr))
